@@ -2,7 +2,7 @@
 From Coq Require Import List Bool NArith.
 Import ListNotations.
 From JS Require Import Model.Base Model.Shape Model.Sem Model.Merger Model.Infer Model.Api
-  Proofs.MergerConverge Proofs.SourcesSound Proofs.MergerAbsorb.
+  Proofs.MergerConverge Proofs.SourcesSound Proofs.MergerAbsorb Proofs.ReaddAny.
 From JS Require Import Model.Lexer Model.Walk Model.TextApi Model.JsonRef Proofs.TextComplete Proofs.TextLift Proofs.TextAbsorb.
 
 (* merging the same source shape a second time changes nothing, whatever has been accumulated:
@@ -55,6 +55,23 @@ Theorem C09_readd_ok : forall h d m k, from_sources_tree h = Ok m -> In d h ->
   exists m', from_sources_tree (h ++ repeat d k) = Ok m'.
 Proof. exact sources_readd_ok. Qed.
 Print Assumptions C09_readd_ok.
+
+(* beyond the property's own quantifier (one document re-added in a row): ANY re-additions of documents that are
+   already among the sources -- several different ones, interleaved, in any order, any number of times --
+   never fail and never change which documents the shape admits *)
+Theorem C09_readd_any : forall h m, from_sources_tree h = Ok m ->
+  forall r, (forall d, In d r -> In d h) ->
+  exists m', from_sources_tree (h ++ r) = Ok m' /\ (forall x, mem x m' = mem x m).
+Proof. exact sources_readd_any. Qed.
+Print Assumptions C09_readd_any.
+
+(* ... while the syntactic clause is tied to re-adding in a row: a document added twice already can still change the
+   representation once more after another source arrived in between (true, null, null, "s", then null: sets the flag) *)
+Theorem C09_readd_any_not_syntactic : exists g d x, let h := g ++ [d; d] ++ [x] in
+  from_sources_tree (h ++ [d]) <> from_sources_tree h /\
+  from_sources_tree (h ++ [d; d]) = from_sources_tree (h ++ [d]).
+Proof. exact readd_any_not_syntactic. Qed.
+Print Assumptions C09_readd_any_not_syntactic.
 
 (* when the merged shape of h contains no OneOf, not even the first re-addition changes anything *)
 Theorem C09_readd_unchanged_free : forall h d m, from_sources_tree h = Ok m -> oneof_free m = true -> In d h ->
